@@ -49,4 +49,28 @@ def allcloseF (atol : Float) (diag : Bool) (s : CF) : Bool :=
   let e : CF := if diag then 1 else 0
   decide (CF.abs (s - e) ≤ atol + 1e-5 * CF.abs e)
 
+/-- the shrink decision of the three resize methods: allowed iff the highest occupied level fits -/
+def shrinkAllowed (highestOccupied newDim : Nat) : Bool := decide (highestOccupied < newDim)
+
+/-! ## highest occupied level (`num_quanta_vector`, `num_quanta_matrix`) -/
+
+/-- index of the last entry that passes `nz` ("is not zero"), if any -/
+def lastNonzero {α : Type} (nz : α → Bool) (v : List α) : Option Nat :=
+  ((List.range v.length).reverse).find? (fun i => match v[i]? with | some x => nz x | none => false)
+
+/-- `num_quanta_vector`: the last index whose amplitude is not exactly zero -/
+def numQuantaVector {α : Type} (nz : α → Bool) (v : List α) : Option Nat := lastNonzero nz v
+
+/-- `num_quanta_matrix`: the larger of the last non-zero row and the last non-zero column -/
+def numQuantaMatrix {α : Type} (nz : α → Bool) (m : List (List α)) : Option Nat :=
+  let rows := m.map (fun r => r.any nz)
+  let n := m.length
+  let cols := (List.range n).map (fun c => m.any (fun r => match r[c]? with | some x => nz x | none => false))
+  match lastNonzero id rows, lastNonzero id cols with
+  | some a, some b => some (max a b)
+  | _, _ => none
+
+/-- "not exactly zero" for complex floats (what `!= 0` / `jnp.nonzero` test) -/
+def nzCF (z : CF) : Bool := z.re != 0 || z.im != 0
+
 end PW.Decide
